@@ -287,7 +287,12 @@ func fullRangeZeroLoopDeep(c *Ctx, fn *ssa.Function, targets map[ssa.Value]bool,
 				continue
 			}
 			for ai, a := range ci.Common().Args {
-				if targets[a] && ai < len(sc.Params) {
+				onTarget := targets[a]
+				// a method of a struct the target holds by value (c.chunks.reset())
+				if fa, isFA := a.(*ssa.FieldAddr); isFA && targets[fa.X] {
+					onTarget = true
+				}
+				if onTarget && ai < len(sc.Params) {
 					if ok, how := fullRangeZeroLoopDeep(c, sc, targetsOf(sc, ai), field, depth+1); ok {
 						return true, how + " (in " + fnName(sc) + ")"
 					}
@@ -563,6 +568,10 @@ func init() {
 							continue
 						}
 						if len(ev[f]) == 0 {
+							if how := establishedBeforeUse(c, st.Field(i)); how != "" {
+								r.ok(key, sp.fn, c.pos(fn.Pos()), "not reset here; "+how)
+								continue
+							}
 							r.bad(key, sp.fn, c.pos(fn.Pos()), "field "+f+" of "+sp.typ+" is not re-established by "+sp.fn+" (no store, no Reset): its value carries over to the next use")
 							continue
 						}
@@ -999,6 +1008,87 @@ func init() {
 			for _, site := range c.callsTo(isb) {
 				fn := site.Parent()
 				for i, a := range site.Common().Args {
+					// a result of the builder (convert) that is itself a field of the pooled state -
+					// also of a struct it holds by value: it stays reachable from the pool, so it must
+					// only ever be given fresh tables
+					if ex, isEx := a.(*ssa.Extract); isEx {
+						if call, isCall := ex.Tuple.(*ssa.Call); isCall && call.Call.StaticCallee() != nil && c.inRoot(call.Call.StaticCallee()) && call.Call.StaticCallee().Blocks != nil {
+							g := call.Call.StaticCallee()
+							for _, gb := range g.Blocks {
+								ret, isRet := gb.Instrs[len(gb.Instrs)-1].(*ssa.Return)
+								if !isRet || ex.Index >= len(ret.Results) {
+									continue
+								}
+								rl, isLd := resolveLoad(ret.Results[ex.Index]).(*ssa.UnOp)
+								if !isLd || rl.Op != token.MUL {
+									continue
+								}
+								rfa, isFA := rl.X.(*ssa.FieldAddr)
+								if !isFA || len(g.Params) == 0 {
+									continue
+								}
+								root := rfa.X
+								for {
+									inner, ok := root.(*ssa.FieldAddr)
+									if !ok {
+										break
+									}
+									root = inner.X
+								}
+								// (a receiver captured by a closure is spilled into a cell and loaded from it)
+								if ld, isLd := root.(*ssa.UnOp); isLd && ld.Op == token.MUL {
+									if cell, isCell := ld.X.(*ssa.Alloc); isCell && cell.Referrers() != nil {
+										for _, ref := range *cell.Referrers() {
+											if st, isSt := ref.(*ssa.Store); isSt && st.Addr == ssa.Value(cell) && st.Val == ssa.Value(g.Params[0]) {
+												root = g.Params[0]
+											}
+										}
+									}
+								}
+								if root != ssa.Value(g.Params[0]) || namedOf(g.Params[0].Type()) == nil || namedOf(g.Params[0].Type()).Obj() != it {
+									continue
+								}
+								_, leaf := fieldAddrInfo(rfa)
+								if leaf == nil {
+									continue
+								}
+								key := fnName(fn) + "/escapes-result-" + leaf.Name()
+								badStore := ""
+								for _, hf := range c.srcFns {
+									for _, hb := range hf.Blocks {
+										for _, hi := range hb.Instrs {
+											st, isSt := hi.(*ssa.Store)
+											if !isSt {
+												continue
+											}
+											sfa, isFA := st.Addr.(*ssa.FieldAddr)
+											if !isFA {
+												continue
+											}
+											if _, fv := fieldAddrInfo(sfa); fv != leaf {
+												continue
+											}
+											switch v := st.Val.(type) {
+											case *ssa.MakeSlice, *ssa.MakeMap:
+											case *ssa.Const:
+												if !v.IsNil() {
+													badStore = c.pos(st.Pos())
+												}
+											default:
+												badStore = c.pos(st.Pos())
+											}
+										}
+									}
+								}
+								if badStore != "" {
+									r.bad(key, fnName(fn), c.pos(site.Pos()), "the table ."+leaf.Name()+" of the pooled builder state is handed to the returned segment, and at "+badStore+" it is given something other than a fresh allocation: a later build can overwrite what the earlier segment still reads")
+								} else {
+									r.ok(key, fnName(fn), c.pos(site.Pos()), "the escaping table ."+leaf.Name()+" is only ever given a fresh allocation")
+								}
+							}
+						}
+						continue
+					}
 					ld, ok := a.(*ssa.UnOp)
 					if !ok || ld.Op != token.MUL {
 						// bytes argument
@@ -1463,6 +1553,15 @@ func assignedOnEntry(c *Ctx, fname, typ, f string) bool {
 					}
 				}
 			}
+			// in the entry block of a helper that fn starts with (collectFields(); ...): the store
+			// is in the helper's entry block and the helper is called from fn's entry block
+			if st.ins.Block() == st.fn.Blocks[0] {
+				for _, site := range c.callsTo(st.fn) {
+					if site.Parent() == fn && site.Block() == fn.Blocks[0] {
+						return true
+					}
+				}
+			}
 			continue
 		}
 		if st.ins.Block() == fn.Blocks[0] {
@@ -1877,4 +1976,120 @@ func rawParam(v ssa.Value, p *ssa.Parameter, seen map[ssa.Value]bool) bool {
 		return rawParam(x.X, p, seen)
 	}
 	return false
+}
+
+// establishedBeforeUse: fv is a struct the pooled object holds by value, and every
+// function that touches it either begins (entry block, before any other access)
+// with a call of one of its methods that re-establishes all of its fields, or is
+// only called after such a call in its caller: nothing of an earlier use can be
+// seen. Returns a description, "" if that cannot be shown.
+func establishedBeforeUse(c *Ctx, fv *types.Var) string {
+	sub, ok := fv.Type().Underlying().(*types.Struct)
+	if !ok || sub.NumFields() == 0 {
+		return ""
+	}
+	touches := func(fn *ssa.Function) []ssa.Instruction {
+		var out []ssa.Instruction
+		for _, b := range fn.Blocks {
+			for _, ins := range b.Instrs {
+				if fa, ok := ins.(*ssa.FieldAddr); ok {
+					if _, f := fieldAddrInfo(fa); f == fv {
+						out = append(out, fa)
+					}
+				}
+			}
+		}
+		return out
+	}
+	// the establishing call in fn: receiver = the field's address, all sub-fields covered
+	establishing := func(fn *ssa.Function) *ssa.Call {
+		for _, b := range fn.Blocks {
+			for _, ins := range b.Instrs {
+				call, ok := ins.(*ssa.Call)
+				if !ok || call.Call.StaticCallee() == nil || !c.inRoot(call.Call.StaticCallee()) || len(call.Call.Args) == 0 {
+					continue
+				}
+				fa, ok := call.Call.Args[0].(*ssa.FieldAddr)
+				if !ok {
+					continue
+				}
+				if _, f := fieldAddrInfo(fa); f != fv {
+					continue
+				}
+				have := map[string]bool{}
+				for _, n := range mustEstablish(call.Call.StaticCallee(), 0) {
+					have[n] = true
+				}
+				all := true
+				for i := 0; i < sub.NumFields(); i++ {
+					if !have[sub.Field(i).Name()] {
+						all = false
+					}
+				}
+				if all {
+					return call
+				}
+			}
+		}
+		return nil
+	}
+	var est *ssa.Call
+	var users []*ssa.Function
+	for _, fn := range c.srcFns {
+		if len(touches(fn)) == 0 {
+			continue
+		}
+		// methods of the sub-struct itself do not count as users
+		if fn.Signature.Recv() != nil {
+			if n := namedOf(fn.Signature.Recv().Type()); n != nil && types.Identical(n.Underlying(), sub) {
+				continue
+			}
+		}
+		users = append(users, fn)
+	}
+	if len(users) == 0 {
+		return ""
+	}
+	var covered func(fn *ssa.Function, upTo ssa.Instruction, depth int) bool
+	covered = func(fn *ssa.Function, upTo ssa.Instruction, depth int) bool {
+		// is the field established whenever `upTo` (an instruction of fn; nil: fn's own touches) runs?
+		if depth > 3 {
+			return false
+		}
+		if e := establishing(fn); e != nil {
+			okHere := true
+			if upTo != nil {
+				okHere = before(e, upTo)
+			} else {
+				for _, t := range touches(fn) {
+					if ssa.Value(t.(*ssa.FieldAddr)) != e.Call.Args[0] && !before(e, t) {
+						okHere = false
+					}
+				}
+			}
+			if okHere {
+				est = e
+				return true
+			}
+		}
+		sites := c.callsTo(fn)
+		if len(sites) == 0 {
+			return false
+		}
+		for _, site := range sites {
+			if !covered(site.Parent(), site, depth+1) {
+				return false
+			}
+		}
+		return true
+	}
+	for _, fn := range users {
+		if !covered(fn, nil, 0) {
+			return ""
+		}
+	}
+	if est == nil {
+		return ""
+	}
+	return "every use of ." + fv.Name() + " comes after " + fnName(est.Call.StaticCallee()) + " has re-established all of its fields (at " + c.pos(est.Pos()) + ")"
 }
